@@ -71,6 +71,9 @@ def lim_to_real(lim):
     kw["tol_block"] = {tuple(t): float(Fraction(*x)) for t, x in tb["dict"]} if isinstance(tb, dict) else float(Fraction(*tb))
     db = lim["Db"]
     kw["D_block"] = {tuple(t): D(x) for t, x in db["dict"]} if isinstance(db, dict) else D(db)
+    if "kb" in lim:   # factorizations with a partial-SVD policy only
+        kb = lim["kb"]
+        kw["k_block"] = {tuple(t): D(x) for t, x in kb["dict"]} if isinstance(kb, dict) else D(kb)
     return kw
 
 
@@ -384,18 +387,37 @@ def _data(g, size, intdata):
     return g.uniform(-1, 1, size=size)
 
 
+PARTIAL = ("lowrank", "block_arnoldi", "block_propack")   # block-wise partial-SVD policies available on the NumPy backend
+
+
 def gen_fact_case(rng, kind):
     sid = rng.choice(["dense", "U1", "U1", "Z2", "Z3", "Z2xU1"])
     rec = {"kind": kind, "sym": sid, "seed": rng.randrange(2 ** 31), "intdata": rng.random() < 0.4}
     if kind == "svd":
+        rec["policy"] = rng.choice(["fullrank"] * 5 + ["lowrank"] * 3 + ["block_arnoldi", "block_propack"])
         nd = rng.randint(2, 4)
         rec["legs"] = [gen_leg(rng, sid, rng.choice((1, -1))) for _ in range(nd)]
+        # sectors large enough for the iterative solvers behind the partial policies (scipy svds):
+        # block_*: min(D)*0.1 > k ; lowrank: k < min(D)-1 and D0*D1 > 5000
+        r = rng.random()
+        if rec["policy"] != "fullrank" and r < 0.2:
+            big = rec["policy"] == "lowrank" or r < 0.04
+            rec["legs"] = [gen_leg(rng, sid, rng.choice((1, -1))) for _ in range(2)]
+            for l in rec["legs"]:
+                l["t"] = l["t"][:2]
+                l["D"] = [rng.randint(71, 80) if big else rng.randint(11, 24) for _ in l["t"]]
+            nd = 2
+            rec["size"] = "big" if big else "medium"
         pool = charge_pool(sid)
         rec["n"] = list(rng.choice(pool)) if rng.random() < 0.6 else list(pool[0] if sid in ("dense",) else [0] * len(pool[0]))
         perm = list(range(nd)); rng.shuffle(perm)
         cut = rng.randint(1, nd - 1)
         rec["axes"] = [perm[:cut], perm[cut:]]
         rec["sU"] = rng.choice((1, -1)); rec["nU"] = rng.random() < 0.5
+        rec["fix_signs"] = rng.random() < 0.2
+        if rng.random() < 0.3:   # position of the new leg in U and V
+            rec["Uaxis"] = rng.randint(-(cut + 1), cut)
+            rec["Vaxis"] = rng.randint(-(nd - cut + 1), nd - cut)
     else:
         nh = rng.randint(1, 2)
         rec["legs"] = [gen_leg(rng, sid, rng.choice((1, -1))) for _ in range(nh)]
@@ -403,26 +425,114 @@ def gen_fact_case(rng, kind):
         rec["sU"] = rng.choice((1, -1))
         rec["which"] = rng.choice(["LM", "LR"])
         rec["psd"] = rng.random() < 0.3
+        if rng.random() < 0.3:
+            rec["Uaxis"] = rng.randint(-(nh + 1), nh)
     return rec
 
 
-def gen_fact_limits(rng, full, nonbinding=False):
-    """float limits for a factorization given the full spectrum {t: weights}."""
+def gen_fact_limits(rng, full, nonbinding=False, sid=None, partial=False):
+    """float limits for a factorization given the full spectrum {t: weights}.
+
+    partial=True (block-wise partial-SVD policy): the number of triples to solve for per sector must be given, either through
+    D_block (int / per-sector dictionary) or through the separate argument k_block ("kb": int / dictionary over ALL sectors):
+      * kb without D_block: the per-sector limit is kb;
+      * kb together with D_block: kb >= D_block in every sector (kb is then no limit under either reading of the docstring).
+    """
     n = sum(len(v) for v in full.values())
+    foreign = [t for t in charge_pool(sid) if t not in full] if sid else []
+    sizes = [len(v) for v in full.values()]
+
+    def with_foreign(items, vals):
+        if foreign and rng.random() < 0.4:
+            items.append([list(rng.choice(foreign)), rng.choice(vals)])
+        rng.shuffle(items)
+        return {"dict": items}
+
     if nonbinding:
-        return {"tol": [0, 1], "tolb": [0, 1], "Db": rng.choice([None, max(len(v) for v in full.values())] if full else [None]),
-                "Dt": rng.choice([None, n, n + 3])}
+        lim = {"tol": [0, 1], "tolb": [0, 1], "Dt": rng.choice([None, n, n + 3])}
+        r = rng.random()
+        if partial and r < 0.5:      # per-sector dictionary exactly admitting (or exceeding) every sector
+            lim["Db"] = with_foreign([[list(t), len(v) + rng.choice([0, 0, 1, 3])] for t, v in full.items()], [0, 1, 5])
+        elif partial and r < 0.7:    # only k_block
+            lim["Db"] = None
+            lim["kb"] = max(sizes) + rng.choice([0, 2]) if r < 0.6 else \
+                with_foreign([[list(t), len(v) + rng.choice([0, 1])] for t, v in full.items()], [0, 1, 5])
+        elif partial:
+            lim["Db"] = max(sizes) + rng.choice([0, 1])
+        else:
+            lim["Db"] = rng.choice([None, max(sizes)])
+        return lim
     tols = [[0, 1], [0, 1], [1, 10 ** 12], [1, 100], [1, 10], [3, 10], [1, 2], [7, 10]]
     lim = {"tol": rng.choice(tols), "tolb": rng.choice(tols), "Dt": rng.choice([None, None, 0, 1, 2, 3, max(n // 2, 1), max(n - 1, 0), n])}
+    if partial and rng.random() < 0.5:
+        lim["tol"] = lim["tolb"] = [0, 1]
+        lim["Dt"] = rng.choice([None, None, lim["Dt"]])
+    dvals = [None, 0, 1, 2, 3] + ([max(sizes), max(sizes) + 2] if partial else [])
     r = rng.random()
-    if r < 0.35:
+    if r < (0.15 if partial else 0.35):
         lim["Db"] = None
-    elif r < 0.7:
+    elif r < (0.4 if partial else 0.7):
         lim["Db"] = rng.choice([0, 1, 2, 3])
     else:
-        keys = [t for t in full if rng.random() < 0.7]
-        lim["Db"] = {"dict": [[list(t), rng.choice([None, 0, 1, 2, 3])] for t in keys]}
+        keys = [t for t in full if rng.random() < (0.85 if partial else 0.7)]
+        items = [[list(t), rng.choice(dvals)] for t in keys]
+        lim["Db"] = with_foreign(items, dvals) if sid else {"dict": items}
+        if partial and not lim["Db"]["dict"]:     # see assumptions: an empty dictionary is outside the partial policies' domain
+            lim["Db"]["dict"].append([list(rng.choice(list(full))), rng.choice(dvals)])
+    if partial and (lim["Db"] is None or rng.random() < 0.25):
+        def atleast(t):
+            d = lim_db(lim, t)
+            return (len(full[t]) if d == INF else d) + rng.choice([0, 0, 1, 4])
+        if lim["Db"] is None:
+            lim["kb"] = rng.choice([0, 1, 2, 3, max(sizes)]) if rng.random() < 0.35 else \
+                with_foreign([[list(t), rng.choice([0, 1, 2, 3, len(full[t]), len(full[t]) + 2])] for t in full], [0, 1, 5])
+        elif rng.random() < 0.4:
+            lim["kb"] = max(atleast(t) for t in full)
+        else:
+            lim["kb"] = with_foreign([[list(t), atleast(t)] for t in full], [0, 1, 5])
     return lim
+
+
+def neg_charge(sid, t):
+    """charge of the conjugate sector (independent of yastn.sym)."""
+    t = tuple(t)
+    if sid in ("dense", "Z2"):
+        return t
+    if sid == "Z3":
+        return ((-t[0]) % 3,)
+    if sid == "U1":
+        return (-t[0],)
+    if sid == "Z2xU1":
+        return (t[0] % 2, -t[1])
+    if sid == "U1xU1":
+        return (-t[0], -t[1])
+    raise ValueError(sid)
+
+
+def stage_dict(lim):
+    """what the partial-SVD stage receives as k_block: the explicit k_block if given, else D_block. None = no restriction."""
+    kb = lim.get("kb", lim["Db"])
+    if isinstance(kb, dict):
+        return {tuple(t): (INF if x is None else x) for t, x in kb["dict"]}
+    return INF if kb is None else kb
+
+
+def effective_limits(lim, full, policy, lookup=None):
+    """limits seen by the oracle: for a partial policy sector t is first cut to the number of triples solved for
+    (k_block[t]; sectors absent from a k_block dictionary get the smallest entry - and are absent from D_block too whenever the
+    dictionary is D_block itself), then D_block applies.  lookup(t): key used to read the dictionary (identity = documented)."""
+    if policy == "fullrank":
+        return lim
+    kb = stage_dict(lim)
+    lookup = lookup or (lambda t: t)
+    items = []
+    for t in full:
+        k = kb.get(lookup(t), min(kb.values())) if isinstance(kb, dict) else kb
+        d = min(k, lim_db(lim, t))
+        items.append([list(t), None if d == INF else d])
+    out = dict(lim)
+    out["Db"] = {"dict": items}
+    return out
 
 
 def fact_oracle(full, kept, lim, eps=1e-9):
@@ -485,17 +595,32 @@ def eval_fact_case(ctx, rec, lim, label="binding"):
     na = float(yastn.norm(a))
     axes = (tuple(rec["axes"][0]), tuple(rec["axes"][1]))
     scale = max(na, 1e-300)
+    policy = rec.get("policy", "fullrank")
+    Uaxis, Vaxis = rec.get("Uaxis", -1), rec.get("Vaxis", 0)
     try:
         if rec["kind"] == "svd":
+            # reference: the complete spectrum from the default full-rank solver, whatever policy the case uses
             U0, S0, V0 = yastn.linalg.svd(a, axes=axes, sU=rec["sU"], nU=rec["nU"])
             ref = a.transpose(axes=axes[0] + axes[1])
             if float(yastn.norm(ref - U0 @ S0 @ V0)) > 1e-11 * scale:
                 ctx.fail("contract", "c13:contract:svd", "full svd does not reconstruct the tensor to 1e-11", case=case)
             full = diag_blocks(S0)
-            U, S, V = yastn.linalg.svd_with_truncation(a, axes=axes, sU=rec["sU"], nU=rec["nU"], **kw)
+            try:
+                U, S, V = yastn.linalg.svd_with_truncation(a, axes=axes, sU=rec["sU"], nU=rec["nU"], policy=policy,
+                                                           fix_signs=rec.get("fix_signs", False), Uaxis=Uaxis, Vaxis=Vaxis, **kw)
+            except np.linalg.LinAlgError as e:
+                if policy in PARTIAL and "did not converge" in str(e):
+                    # scipy's iterative solver gave up (seen for PROPACK with yastn's maxiter=20*k): an honest error, no wrong result
+                    ctx.count(f"svd:{policy}:solver-did-not-converge")
+                    return
+                raise
+            U = U.moveaxis(source=Uaxis, destination=-1)
+            V = V.moveaxis(source=Vaxis, destination=0)
             kept = diag_blocks(S)
             err = float(yastn.norm(ref - U @ S @ V)) if S.size > 0 else na
-            shapes_ok = True
+            shapes_ok = (U.ndim == len(axes[0]) + 1 and V.ndim == len(axes[1]) + 1
+                         and U.get_legs(-1) == S.get_legs(0).conj() and V.get_legs(0) == S.get_legs(1).conj()
+                         and S.get_legs(1).s == rec["sU"])
         else:
             which = rec["which"]
             S0, U0 = yastn.linalg.eigh(a, axes=axes, sU=rec["sU"], which=which)
@@ -505,7 +630,8 @@ def eval_fact_case(ctx, rec, lim, label="binding"):
                 ctx.fail("contract", "c13:contract:eigh", "full eigh does not reconstruct the tensor to 1e-11", case=case)
             wf = (lambda x: np.abs(x)) if which == "LM" else (lambda x: x)
             full = {t: wf(v) for t, v in diag_blocks(S0).items()}
-            S, U = yastn.linalg.eigh_with_truncation(a, axes=axes, sU=rec["sU"], which=which, **kw)
+            S, U = yastn.linalg.eigh_with_truncation(a, axes=axes, sU=rec["sU"], which=which, Uaxis=Uaxis, **kw)
+            U = U.moveaxis(source=Uaxis, destination=-1)
             kept = {t: wf(v) for t, v in diag_blocks(S).items()}
             if S.size > 0:
                 err = float(yastn.norm(a - yastn.tensordot(U @ S, U.conj(), axes=(nh, nh))))
@@ -517,8 +643,29 @@ def eval_fact_case(ctx, rec, lim, label="binding"):
         return
     kind = rec["kind"]
     if not shapes_ok or not S.isdiag or any(len(v) == 0 for v in kept.values()):
-        ctx.fail("oracle", f"c13:{kind}:structure", "S is not diagonal or keeps an empty sector", case=case, concrete=True)
-    res, dn = fact_oracle(full, kept, lim)
+        ctx.fail("oracle", f"c13:{kind}:structure", "S is not diagonal, keeps an empty sector, or U/V do not connect to S", case=case, concrete=True)
+    lim_eff = effective_limits(lim, full, policy)
+    res, dn = fact_oracle(full, kept, lim_eff)
+    n = sum(len(v) for v in full.values())
+    nk = sum(len(v) for v in kept.values())
+    if label == "nonbinding":
+        g = max((float(np.max(np.abs(v))) for v in full.values()), default=0.0)
+        strictly_pos = all(np.all(v > 1e-9 * g) for v in full.values()) and g > 0
+        ctx.count(f"{kind}:nonbinding:" + ("hyp-holds" if strictly_pos else "hyp-fails(zero/negative values)"))
+        if strictly_pos and (nk != n or err > 1e-10 * scale):
+            res.append(("nonbinding", f"no limit binds but {n - nk} of {n} values were discarded (error {err!r})"))
+    if res and kind == "svd" and policy in PARTIAL and isinstance(stage_dict(lim), dict):
+        # Defect of the pinned commit, repaired in /repo (b589852): the partial-SVD stage read the k_block/D_block dictionary with the
+        # raw row/column charge of the matrix block, i.e. with the NEGATED sector charge whenever sU differs from the signature
+        # of the column group (nU) / equals that of the row group (not nU).  A failure that is reproduced exactly by that
+        # reading of the dictionary is reported under its own stable key; anything else keeps the ordinary keys.
+        s_row, s_col = rec["legs"][axes[0][0]]["s"], rec["legs"][axes[1][0]]["s"]
+        negated = (rec["sU"] != s_col) if rec["nU"] else (rec["sU"] == s_row)
+        if negated:
+            res_neg, _ = fact_oracle(full, kept, effective_limits(lim, full, policy, lookup=lambda t: neg_charge(rec["sym"], t)))
+            if not res_neg:
+                res = [("lowrank-dict-negated-charge", "per-sector dictionary read with the negated sector charge by the partial-SVD stage: "
+                        + "; ".join(m for _, m in res))]
     for key, msg in res:
         ctx.fail("oracle", f"c13:{kind}:{key}", f"{kind}_with_truncation violates the property ({key}): {msg}; limits={lim}", case=case, concrete=True)
     if dn is not None:
@@ -527,18 +674,30 @@ def eval_fact_case(ctx, rec, lim, label="binding"):
         if dev > 1e-10 * scale:
             ctx.fail("oracle", f"c13:{kind}:error-identity",
                      f"|a - U S V| = {err!r} but |S_discarded| = {dn!r} (|a| = {na!r}); limits={lim}", case=case, concrete=True)
-    n = sum(len(v) for v in full.values())
-    nk = sum(len(v) for v in kept.values())
-    if label == "nonbinding":
-        g = max((float(np.max(np.abs(v))) for v in full.values()), default=0.0)
-        strictly_pos = all(np.all(v > 1e-9 * g) for v in full.values()) and g > 0
-        ctx.count(f"{kind}:nonbinding:" + ("hyp-holds" if strictly_pos else "hyp-fails(zero/negative values)"))
-        if strictly_pos and (nk != n or err > 1e-10 * scale):
-            ctx.fail("oracle", f"c13:{kind}:nonbinding", f"no limit binds but {n - nk} of {n} values were discarded (error {err!r})", case=case, concrete=True)
     ctx.count(f"{kind}:kept:" + ("none" if nk == 0 else "all" if nk == n else "some"))
     ctx.count(f"{kind}:sym:{rec['sym']}")
+    if "Uaxis" in rec:
+        ctx.count(f"{kind}:Uaxis/Vaxis:non-default")
     if kind == "svd":
         ctx.count("svd:charge:" + ("zero" if not any(rec["n"]) else "nonzero"))
+        ctx.count(f"svd:policy:{policy}")
+        if rec.get("fix_signs"):
+            ctx.count("svd:fix_signs")
+        if policy in PARTIAL:
+            sd = stage_dict(lim)
+            tag = ("k_block:" if "kb" in lim else "D_block:") + ("dict" if isinstance(sd, dict) else "int")
+            if isinstance(sd, dict):
+                tag += ":distinct-values" if len({sd.get(t) for t in full}) > 1 else ":equal-values"
+            ctx.count(f"svd:partial:{tag}")
+            ctx.count(f"svd:partial:nU={rec['nU']},charge-{'nonzero' if any(rec['n']) else 'zero'}")
+            ctx.count(f"svd:partial:size:{rec.get('size', 'small')}")
+            # does any sector meet the library's criterion for the iterative solver?  (informative only)
+            it = 0
+            for t, v in full.items():
+                k = min(sd.get(t, min(sd.values())) if isinstance(sd, dict) else sd, len(v))
+                if rec.get("size") and 0 < k and ((policy != "lowrank" and len(v) * 0.1 > k) or (rec.get("size") == "big" and k < len(v) - 1)):
+                    it += 1
+            ctx.count("svd:partial:iterative-solver-eligible-sector:" + ("yes" if it else "no"))
     ctx.case(case, nontrivial=(n >= 2))
     return full
 
